@@ -238,7 +238,11 @@ pub fn gen_vsize(s: &mut Src, cb: u8, align_bits: u8, p: &Profile) -> u64 {
         match s.weighted(&p.vsize_weights) {
             0 => 1 + s.pick(4) as u64,
             1 => 1 + s.pick(std::cmp::min(p.max_clusters, 24) as usize) as u64,
-            2 => 1 + s.pick(p.max_clusters as usize) as u64,
+            2 => {
+                // up to max_clusters, but at most 2 MiB of guest space (sweeps read all of it)
+                let cap = std::cmp::max(24, (2u64 << 20) / cs);
+                1 + s.pick(std::cmp::min(p.max_clusters, cap) as usize) as u64
+            }
             _ => {
                 // several L1 entries (only affordable for small clusters)
                 if p.multi_l1 && cb <= 10 {
